@@ -1,0 +1,28 @@
+//go:build verif
+
+// Contracts (machine-checked by /verif/bin/govc).  Comment-only file.
+
+package stgutg
+
+//@ func hexCharToByte
+//@ prop C11
+//@ ensures digit: vc.Imp('0' <= c && c <= '9', result == c-'0')
+//@ ensures lower: vc.Imp('a' <= c && c <= 'f', result == c-'a'+10)
+//@ ensures upper: vc.Imp('A' <= c && c <= 'F', result == c-'A'+10)
+//@ ensures other: vc.Imp(!('0' <= c && c <= '9') && !('a' <= c && c <= 'f') && !('A' <= c && c <= 'F'), result == 0)
+
+// EncodeSuci: the contents of the 5GS mobile identity IE are the null-scheme
+// SUCI of TS 24.501 9.11.3.4 for the IMSI (spec: /verif/spec/ids).
+//@ func EncodeSuci
+//@ prop C11
+//@ requires mnc: mncLen == 2 || mncLen == 3
+//@ requires len: len(imsi) >= 3+mncLen && len(imsi) < 1<<16
+//@ requires digits: vc.Forall(0, len(imsi), func(i int) bool { return '0' <= imsi[i] && imsi[i] <= '9' })
+//@ ensures nonnil: result != nil
+//@ ensures len: len(result.Buffer) == ids.SUCILen(len(imsi), mncLen) && int(result.Len) == len(result.Buffer)
+//@ ensures suci: vc.Forall(0, len(result.Buffer), func(j int) bool { return result.Buffer[j] == ids.SUCIByte(imsi, mncLen, j) })
+//@ ensures iei: result.Iei == 0
+//@ loop i invariant range (i int, msin []byte, imsi []byte, mncLen int): 0 <= i && i <= len(msin)+1 && i%2 == 0 && len(msin) == len(imsi)-3-mncLen
+//@ loop i invariant buf (i int, suci nasType.MobileIdentity5GS, imsi []byte, mncLen int): len(suci.Buffer) == 8+i/2 && vc.Forall(0, len(suci.Buffer), func(j int) bool { return suci.Buffer[j] == ids.SUCIByte(imsi, mncLen, j) })
+//@ loop i invariant hdr (suci nasType.MobileIdentity5GS): suci.Iei == 0
+//@ loop i decreases (i int, msin []byte): len(msin) + 1 - i
